@@ -16,8 +16,10 @@ CHECK = dict(
          "for ever (C08_holds_defaults_history; necessary guard: no UNCHANGED keyword, see the finding "
          "C08_unchanged_keyword_refuted), the final-heap form of reset freshness for del / reset_<a>(_inplace=True) "
          "without dependants (C08_del_fresh_final_heap), and peers created by constructors stay disjoint over histories "
-         "of constructor calls, copy-on-write helpers and in-place scalar assignments provided no intermediate heap has a "
-         "dangling reference (C08_peers_disjoint_history_partial). Remaining partial: see docs/C08.md. The "
+         "of constructor calls, copy-on-write helpers and EVERY helper called in place (attribute level, element level = "
+         "nested values at depth one, update/transform/reset) with scalar arguments (C08_peers_disjoint_history_partial, "
+         "C08_peers_disjoint_history_nested_partial); the model never stores a dangling reference "
+         "(C08_no_dangling_reference_is_ever_stored). Remaining partial: see docs/C08.md. The "
          "correspondence runs histories mixing construction, in-place mutation, del / reset_<a> / reset and fresh "
          "instances on every default form of the class grammar (incl. mutable overrides in a spec subclass) and evaluates "
          "in Coq, on the implementation's graphs, the sharing oracles and `same` assertions (attribute after reset equals "
